@@ -371,7 +371,8 @@ def _run_all(ctx, drv, T):
         if drv is not None:
             layout_tie(ctx, drv, files, tmp)
         reqs, pend = [], []
-        order = list(range(len(files)))
+        # the variants on which readers and writers fetch different views first (they must not fall to the time budget)
+        order = sorted(range(len(files)), key=lambda i: 0 if (files[i].variant is not None and files[i].variant.empty) else 1)
         for fi in order:
             f = files[fi]
             try:
